@@ -32,7 +32,7 @@ TECHNIQUE = ("Coq proof (Coquelicot is_derive for gradient, Hessian, H.p, cfit/e
 HEADER = ("From Coq Require Import Reals List.\nFrom Interval Require Import Tactic.\n"
           "From TFV Require Import Base.RBase Base.Tie Base.RSum Lik.NLL Lik.Grad.\nImport ListNotations.\nOpen Scope R_scope.\n")
 LISTF = c06.LISTF
-IP = "interval with (i_prec 70)"
+IP = "first [ interval with (i_prec 70) | interval with (i_prec 120) ]"  # second attempt: sums of ~30 logarithms of densities ~1e6 need more than 70 bits (thorough C06 s81)
 MODELS = ["default", "extended", "cfit", "cfit_extended", "cfit_cached", "cached_int", "cached_amp", "simple", "simple_clip", "simple_cfit"]
 CFIT_LIKE = c06.CFIT_LIKE
 RTOL, ATOL = 1e-7, 1e-9
